@@ -1,6 +1,7 @@
 import Varint.Gen.CRLEDec
 import Varint.Model.RLE
 import Varint.Lemmas.RLE
+import Varint.Lemmas.RLEH
 import Varint.Bridge.Loop
 import Varint.Bridge.Tagged
 import Varint.Bridge.TaggedAdd
@@ -199,5 +200,207 @@ theorem enc_lt (xs : List Nat) (hx : ∀ x ∈ xs, x < 2 ^ 64) (hn : xs.length <
   have := RLE.le_total_of_mem (RLE.runs xs) r hr
   rw [RLE.total_runs] at this
   omega
+
+
+/-! ### varintRLEDecodeWithHeader, varintRLEGetAt, varintRLEGetCount -/
+
+theorem encRuns_cons' (l v : Nat) (rs : List (Nat × Nat)) :
+    encRuns ((l, v) :: rs) = (Tagged.enc l ++ Tagged.enc v) ++ encRuns rs := by
+  simp [encRuns]
+
+
+/-- the fill loop of the header variant: `min (l - i) (cap - dec)` copies -/
+theorem fillH_loop (cap l v : Nat) (hcap : cap < 2 ^ 63) :
+    ∀ (k fuel i dec : Nat) (ws : List (Nat × Nat)), i ≤ l → dec ≤ cap → i + (cap - dec) < 2 ^ 64 →
+      k = min (l - i) (cap - dec) → k + 1 ≤ fuel →
+      ∃ i', rleDecodeWithHeader_loop2 cap l v fuel (i, dec, ws) =
+        .done (i', dec + k, ws ++ storesFrom dec (List.replicate k v)) := by
+  intro k
+  induction k with
+  | zero =>
+    intro fuel i dec ws hi hd hsum hk hf
+    obtain ⟨fuel, rfl⟩ : ∃ g, fuel = g + 1 := ⟨fuel - 1, by omega⟩
+    unfold rleDecodeWithHeader_loop2
+    have : ¬ (i < l ∧ dec < cap) := by omega
+    rw [if_neg this]
+    exact ⟨i, by simp⟩
+  | succ k ih =>
+    intro fuel i dec ws hi hd hsum hk hf
+    obtain ⟨fuel, rfl⟩ : ∃ g, fuel = g + 1 := ⟨fuel - 1, by omega⟩
+    unfold rleDecodeWithHeader_loop2
+    have : i < l ∧ dec < cap := by omega
+    rw [if_pos this]
+    have e1 : (dec + 1) % 2 ^ 64 = dec + 1 := Nat.mod_eq_of_lt (by omega)
+    have e2 : (i + 1) % 2 ^ 64 = i + 1 := Nat.mod_eq_of_lt (by omega)
+    simp only [e1, e2]
+    obtain ⟨i', h⟩ := ih fuel (i + 1) (dec + 1) (ws ++ [(dec, v)]) (by omega) (by omega) (by omega) (by omega) (by omega)
+    refine ⟨i', ?_⟩
+    rw [h]
+    simp [List.replicate_succ, Nat.add_assoc, Nat.add_comm 1 k]
+
+theorem decodeH_loop (bs : List Nat) (hb : ∀ b ∈ bs, b < 256) (cap total : Nat) (hcap : cap < 2 ^ 63) :
+    ∀ (mf fuel ptr dec : Nat) (ws : List (Nat × Nat)) (out : List Nat), dec ≤ cap →
+      mf + cap + 1 ≤ fuel →
+      decHAux mf dec total cap (bs.drop ptr) = some out →
+      ∃ p', rleDecodeWithHeader_loop1 (Bridge.Tagged.bufOf bs) cap total fuel (ptr, dec, ws) =
+        .done (p', dec + out.length, ws ++ storesFrom dec out) := by
+  intro mf
+  induction mf with
+  | zero => intro fuel ptr dec ws out _ _ h; simp [decHAux] at h
+  | succ mf ih =>
+    intro fuel ptr dec ws out hd hfu h
+    obtain ⟨fuel, rfl⟩ : ∃ g, fuel = g + 1 := ⟨fuel - 1, by omega⟩
+    unfold decHAux at h
+    unfold rleDecodeWithHeader_loop1
+    by_cases c0 : dec ≥ total ∨ dec ≥ cap
+    · rw [if_pos c0] at h
+      have : ¬ (dec < total ∧ dec < cap) := by omega
+      rw [if_neg this]
+      simp only [Option.some.injEq] at h
+      subst h
+      exact ⟨ptr, by simp⟩
+    · rw [if_neg c0] at h
+      have hlt : dec < total ∧ dec < cap := by omega
+      rw [if_pos hlt]
+      cases hg : getRun (bs.drop ptr) with
+      | none => rw [hg] at h; simp at h
+      | some r =>
+        obtain ⟨l, v, rest⟩ := r
+        rw [hg] at h
+        simp only [] at h
+        obtain ⟨n, hrun, hrest⟩ := rleDecodeRun_eq (bs.drop ptr) (Bridge.RLE.mem_drop_lt bs hb ptr) l v rest hg
+        rw [Bridge.RLE.bufOf_shift, hrun]
+        simp only [Option.getD_some]
+        obtain ⟨i', hfill⟩ := fillH_loop cap l v hcap (min l (cap - dec)) fuel 0 dec ws (by omega) hd (by omega) (by simp)
+          (by have := Nat.min_le_right l (cap - dec); omega)
+        rw [hfill]
+        simp only []
+        cases hrec : decHAux mf (dec + min l (cap - dec)) total cap rest with
+        | none => rw [hrec] at h; simp at h
+        | some out' =>
+          rw [hrec] at h
+          simp only [Option.map_some, Option.some.injEq] at h
+          subst h
+          have hrest' : rest = bs.drop (ptr + n) := by rw [hrest, List.drop_drop]
+          rw [hrest'] at hrec
+          have hmin := Nat.min_le_right l (cap - dec)
+          obtain ⟨p', hp'⟩ := ih fuel (ptr + n) (dec + min l (cap - dec))
+            (ws ++ storesFrom dec (List.replicate (min l (cap - dec)) v)) out' (by omega) (by omega) hrec
+          refine ⟨p', ?_⟩
+          rw [hp']
+          simp [storesFrom_append, Nat.add_assoc]
+
+/-- **`varintRLEDecodeWithHeader(src, values, maxCount)`** on any readable bytes: a declared count above the capacity
+    is the documented failure (returns 0, stores nothing); otherwise the model's values, at indices 0 … n-1 -/
+theorem rleDecodeWithHeader_eq (bs : List Nat) (hb : ∀ b ∈ bs, b < 256) (cap : Nat) (hcap : cap < 2 ^ 63)
+    (res : Option (List Nat)) (h : RLE.decH bs cap = some res) (fuel : Nat)
+    (hf : bs.length + 2 * cap + 5 ≤ fuel) :
+    rleDecodeWithHeader fuel (Bridge.Tagged.bufOf bs) cap =
+      some (match res with | none => (0, []) | some out => (out.length, storesFrom 0 out)) := by
+  unfold rleDecodeWithHeader
+  unfold RLE.decH at h
+  cases h1 : Tagged.get bs with
+  | fault => rw [h1] at h; simp at h
+  | short => rw [h1] at h; simp at h
+  | ok total n1 =>
+    rw [h1] at h
+    simp only [] at h
+    rw [taggedGet64_ok bs hb total n1 h1]
+    simp only [Option.getD_some]
+    by_cases c : total > cap
+    · rw [if_pos c] at h
+      rw [if_pos c]
+      simp only [Option.some.injEq] at h
+      subst h
+      rfl
+    · rw [if_neg c] at h
+      rw [if_neg c]
+      cases hd : decHAux (bs.length + total + 2) 0 total cap (bs.drop n1) with
+      | none => rw [hd] at h; simp at h
+      | some out =>
+        rw [hd] at h
+        simp only [Option.map_some, Option.some.injEq] at h
+        subst h
+        obtain ⟨p', hp'⟩ := decodeH_loop bs hb cap total hcap (bs.length + total + 2) fuel n1 0 [] out (by omega)
+          (by omega) hd
+        rw [hp']
+        simp
+
+/-- `varintRLEGetCount` reads the header -/
+theorem rleGetCount_eq (bs : List Nat) (hb : ∀ b ∈ bs, b < 256) (v n : Nat) (h : Tagged.get bs = .ok v n) :
+    rleGetCount (Bridge.Tagged.bufOf bs) = v := by
+  unfold rleGetCount
+  rw [taggedGet64_ok bs hb v n h]
+  rfl
+
+
+/-- the loop of `varintRLEGetAt` over a well-formed run list -/
+theorem getAt_loop (bs rest : List Nat) (hb : ∀ b ∈ bs, b < 256) (i : Nat) :
+    ∀ (rs : List (Nat × Nat)) (fuel ptr pos : Nat), (∀ r ∈ rs, 1 ≤ r.1 ∧ r.1 < 2 ^ 64 ∧ r.2 < 2 ^ 64) →
+      bs.drop ptr = encRuns rs ++ rest → pos ≤ i → i < pos + total rs → pos + total rs < 2 ^ 64 →
+      rs.length + 1 ≤ fuel →
+      rleGetAt_loop1 (Bridge.Tagged.bufOf bs) i fuel (ptr, pos) = .ret ((expand rs).getD (i - pos) 0) := by
+  intro rs
+  induction rs with
+  | nil => intro fuel ptr pos _ _ h1 h2; simp [total] at h2; omega
+  | cons r rs ih =>
+    obtain ⟨l, v⟩ := r
+    intro fuel ptr pos hr hd h1 h2 h3 hf
+    simp only [List.length_cons] at hf
+    obtain ⟨fuel, rfl⟩ : ∃ g, fuel = g + 1 := ⟨fuel - 1, by omega⟩
+    have hlv := hr (l, v) (by simp)
+    rw [total_cons] at h2 h3
+    have hg : getRun (bs.drop ptr) = some (l, v, encRuns rs ++ rest) := by
+      rw [hd, encRuns_cons' l v rs, List.append_assoc]
+      exact getRun_enc l v hlv.2.1 hlv.2.2 (encRuns rs ++ rest)
+    obtain ⟨n, hrun, hrest⟩ := rleDecodeRun_eq (bs.drop ptr) (Bridge.RLE.mem_drop_lt bs hb ptr) l v _ hg
+    unfold rleGetAt_loop1
+    have hone : (1 : Int) ≠ 0 := by decide
+    rw [if_pos hone, Bridge.RLE.bufOf_shift, hrun]
+    simp only [Option.getD_some]
+    have hl0 : ¬ (l = 0) := by omega
+    rw [if_neg hl0]
+    have e1 : (pos + l) % 2 ^ 64 = pos + l := Nat.mod_eq_of_lt (by omega)
+    simp only [e1]
+    rw [expand_cons]
+    by_cases c : pos + l > i
+    · rw [if_pos c]
+      congr 1
+      rw [List.getD_eq_getElem?_getD, List.getElem?_append_left (by simp; omega)]
+      have hlt : i - pos < l := by omega
+      simp [List.getElem?_replicate, hlt]
+    · rw [if_neg c]
+      have hd' : bs.drop (ptr + n) = encRuns rs ++ rest := by rw [← List.drop_drop, ← hrest]
+      rw [ih fuel (ptr + n) (pos + l) (fun r hr' => hr r (by simp [hr'])) hd' (by omega) (by omega) (by omega) (by omega)]
+      congr 1
+      rw [List.getD_eq_getElem?_getD, List.getD_eq_getElem?_getD,
+        List.getElem?_append_right (by simp; omega)]
+      simp only [List.length_replicate]
+      congr 2
+      omega
+
+/-- **`varintRLEGetAt(src, index)`** on a valid encoding returns the element the full decoder returns at that index -/
+theorem rleGetAt_eq (xs rest : List Nat) (hx : ∀ x ∈ xs, x < 2 ^ 64) (hn : xs.length < 2 ^ 63)
+    (hr : ∀ b ∈ rest, b < 256) (i : Nat) (hi : i < xs.length) (fuel : Nat) (hf : xs.length + 2 ≤ fuel) :
+    rleGetAt fuel (Bridge.Tagged.bufOf (RLE.enc xs ++ rest)) i = some (xs.getD i 0) := by
+  unfold rleGetAt
+  simp only []
+  have hb : ∀ b ∈ RLE.enc xs ++ rest, b < 256 := by
+    intro b hbm
+    rcases List.mem_append.1 hbm with h1 | h1
+    · exact enc_lt xs hx (by omega) b h1
+    · exact hr b h1
+  have hruns : ∀ r ∈ runs xs, 1 ≤ r.1 ∧ r.1 < 2 ^ 64 ∧ r.2 < 2 ^ 64 := by
+    intro r hr'
+    refine ⟨RLE.runs_pos xs r hr', ?_, hx _ (RLE.runs_vals xs r hr')⟩
+    have := RLE.le_total_of_mem (runs xs) r hr'
+    rw [RLE.total_runs] at this
+    omega
+  have hlen : (runs xs).length ≤ xs.length := by
+    have := RLE.runCount_le xs
+    simpa [RLE.runCount] using this
+  rw [getAt_loop (RLE.enc xs ++ rest) rest hb i (runs xs) fuel 0 0 hruns (by simp [RLE.enc])
+    (by omega) (by rw [RLE.total_runs]; omega) (by rw [RLE.total_runs]; omega) (by omega)]
+  simp [RLE.expand_runs]
 
 end Varint.Bridge.RLEDec
